@@ -275,7 +275,7 @@ def _size(v):
 
 # ------------------------------------------------------------------------------------------ attributes
 def attr_pool():
-    ls = tlv(1026, b'router-1') + tlv(1028, rc.ip4('1.1.1.1'))
+    ls = tlv(1026, b'router-1') + tlv(1028, rc.ip4('1.1.1.1')) + tlv(1158, b'\x01\x02\x03\x04\x05') + tlv(1099, b'\x01\x02\x03\x04\x05')
     return [
         (1, rc.a_origin(0)), (2, rc.a_as_path([(2, [65002, 65003])], True)), (3, rc.a_next_hop('10.0.0.2')), (4, rc.a_med(5)),
         (5, rc.a_local_pref(100)), (6, rc.a_atomic()), (7, rc.a_aggregator(65002, '1.1.1.1', True)), (8, rc.a_communities([0xFFFFFF01, 5])),
@@ -286,6 +286,7 @@ def attr_pool():
         (40, rc.a_unknown(40, tlv(1, b'\x00\x00\x00\x00\x00\x00\x05', 1, 2))),
         ('ls-mp', rc.a_mp_reach(16388, 71, rc.ip4('10.0.0.2'), tlv(1, b'\x02' + b'\x00' * 8 + tlv(256, tlv(512, struct.pack('!I', 65001)))))),
         (29, rc.a_unknown(29, ls, flags=0x80)),
+        ('4x', rc.a_med(7, ext=True)), ('8x', rc.a_communities([1, 2], ext=True)),
     ]
 
 
@@ -320,7 +321,7 @@ def check_perm(idxs, perm, insert_unknown=None):
 def shards(tier):
     out = []
     for k in sorted(kinds()):
-        out.append({'name': 'pairs-' + k, 'kind': 'pairs', 'k': k, 'cap': 12000 if tier == 'quick' else 10 ** 7})
+        out.append({'name': 'pairs-' + k, 'kind': 'pairs', 'k': k, 'cap': 120000 if tier == 'quick' else 10 ** 7})
     out.append({'name': 'tuples', 'kind': 'tuples', 'examples': 1500 if tier == 'quick' else 100000, 'hypothesis': True})
     out.append({'name': 'unknown-insert', 'kind': 'insert'})
     for i in range(4):
@@ -403,7 +404,7 @@ def run_shard(spec, seed, col, tier):
         cnt = nt = 0
         for idxs in subsets:
             keys = [pool[i][0] for i in idxs]
-            if 14 in keys and 'ls-mp' in keys:
+            if (14 in keys and 'ls-mp' in keys) or (4 in keys and '4x' in keys) or (8 in keys and '8x' in keys):
                 continue
             for perm in itertools.permutations(range(len(idxs))):
                 res = check_perm(idxs, perm)
@@ -424,7 +425,7 @@ def run_shard(spec, seed, col, tier):
         def body(t):
             idxs, seedperm = t
             keys = [pool[i][0] for i in idxs]
-            if 14 in keys and 'ls-mp' in keys:
+            if (14 in keys and 'ls-mp' in keys) or (4 in keys and '4x' in keys) or (8 in keys and '8x' in keys):
                 return
             perm = list(range(len(idxs)))
             random.Random(seedperm).shuffle(perm)
